@@ -595,7 +595,8 @@ class Flow:
         entry_facts = dict(hooks.init_facts(fn))
         seen = {}    # block -> {prop -> set(frozen facts)}
         merged = {}  # (block, prop) -> facts dict (joined)
-        work = [(0, hooks.init_prop(), entry_facts, None)]
+        # a decision cell may be evaluated from a block in the middle of the function: values defined before it are simply unknown
+        work = [(getattr(hooks, "start_block", 0) or 0, hooks.init_prop(), entry_facts, None)]
         while work:
             blk, prop, facts, trace = work.pop()
             self.steps += 1
